@@ -99,6 +99,9 @@ func (g *registry) toolHandler(ctx context.Context, req *mcp.CallToolRequest) (*
 			rc.mu.Unlock()
 		}
 	}
+	if pl.TailPause > 0 {
+		time.Sleep(pl.TailPause) // a handler that works for a while after its last notification (the scenario, not synchronisation)
+	}
 	if pl.Fail {
 		return nil, errors.New(pl.Text)
 	}
@@ -191,8 +194,11 @@ type outcome struct {
 
 var toolErrRe = regexp.MustCompile(`(?s)^tool call error: (.*) \(code: (-?\d+)\)$`)
 
-func doCall(cl *mcp.Client, pl *plan, rc *rec) outcome {
-	ctx, cancel := context.WithTimeout(context.Background(), 120*time.Second)
+func doCall(cl *mcp.Client, pl *plan, rc *rec) outcome { return doCallT(cl, pl, rc, 120*time.Second) }
+
+// doCallT: the call with its own context deadline (the client itself has no timeout: http.Client{} without Timeout).
+func doCallT(cl *mcp.Client, pl *plan, rc *rec, ceiling time.Duration) outcome {
+	ctx, cancel := context.WithTimeout(context.Background(), ceiling)
 	defer cancel()
 	out := outcome{reqID: 1}
 	args := map[string]interface{}{"nonce": pl.Nonce}
@@ -271,19 +277,42 @@ func truncAny(v any) any { return trunc(canonS(v), 600) }
 func planSummary(cfg hk.SrvCfg, profile []string, pl *plan) map[string]any {
 	kinds := []string{}
 	for _, e := range pl.Emits {
+		if e.Pause >= 100*time.Millisecond {
+			kinds = append(kinds, fmt.Sprintf("<handler pauses %v>", e.Pause))
+		}
 		kinds = append(kinds, fmt.Sprintf("%s:%s:%dB:meta=%s", e.K, e.Method, e.Bytes, e.MetaKind))
 		if len(kinds) >= 12 {
 			kinds = append(kinds, "…")
 			break
 		}
 	}
-	return map[string]any{"server": fmt.Sprintf("%s postSSE=%v", cfg.Mode, cfg.PostSSE), "handlers": profile,
+	if pl.TailPause > 0 {
+		kinds = append(kinds, fmt.Sprintf("<handler pauses %v before it returns>", pl.TailPause))
+	}
+	in := map[string]any{"server": fmt.Sprintf("%s postSSE=%v", cfg.Mode, cfg.PostSSE), "handlers": profile,
 		"notifications": len(pl.Emits), "emits": kinds, "fail": pl.Fail, "viaRawHook": pl.ViaRaw}
+	if pl.Scenario != "" {
+		in["scenario"] = pl.Scenario
+	}
+	return in
+}
+
+// fpOf: fingerprint "incall:<mode>[:<scenario>]:<what>" (scenario "" = the generated bursts).
+func fpOf(mode, scen, what string) string {
+	if scen == "" {
+		return "incall:" + mode + ":" + what
+	}
+	return "incall:" + mode + ":" + scen + ":" + what
 }
 
 // judge is the implementation-level oracle for one call: the property's statement, checked on the real client's
 // observations without the model.
 func judge(c *hk.Ctx, cfg hk.SrvCfg, profile []string, pl *plan, rc *rec, out outcome) {
+	judgeScen(c, "", cfg, profile, pl, rc, out)
+}
+
+// judgeScen: the same oracle; scen (e.g. "slow-handler:pause>=10s") only makes the fingerprints specific.
+func judgeScen(c *hk.Ctx, scen string, cfg hk.SrvCfg, profile []string, pl *plan, rc *rec, out outcome) {
 	in := planSummary(cfg, profile, pl)
 	mode := "sse"
 	if !cfg.PostSSE {
@@ -296,25 +325,25 @@ func judge(c *hk.Ctx, cfg hk.SrvCfg, profile []string, pl *plan, rc *rec, out ou
 	}
 	switch {
 	case out.callErr != "":
-		c.Violate(hk.Violation{Fingerprint: "incall:" + mode + ":call-failed", What: "the call did not return the handler's answer", Input: in, Observed: trunc(out.callErr, 400)})
+		c.Violate(hk.Violation{Fingerprint: fpOf(mode, scen, "call-failed"), What: "the call did not return the handler's answer", Input: in, Observed: trunc(out.callErr, 400)})
 	case out.isErr != pl.Fail || out.text != wantText:
-		c.Violate(hk.Violation{Fingerprint: "incall:" + mode + ":result-altered", What: "the call returned something else than the handler's answer", Input: in,
+		c.Violate(hk.Violation{Fingerprint: fpOf(mode, scen, "result-altered"), What: "the call returned something else than the handler's answer", Input: in,
 			Observed: map[string]any{"isError": out.isErr, "text": trunc(out.text, 300)}, Expected: map[string]any{"isError": pl.Fail, "text": trunc(wantText, 300)}})
 	}
 	rc.mu.Lock()
 	late, sendErrs, noSender, ran := rc.late, rc.sendErrs, rc.noSender, rc.ranTimes
 	rc.mu.Unlock()
 	if ran != 1 {
-		c.Violate(hk.Violation{Fingerprint: "incall:" + mode + ":handler-ran-not-once", What: "the tool handler ran a number of times other than one", Input: in, Observed: ran})
+		c.Violate(hk.Violation{Fingerprint: fpOf(mode, scen, "handler-ran-not-once"), What: "the tool handler ran a number of times other than one", Input: in, Observed: ran})
 	}
 	if noSender {
-		c.Violate(hk.Violation{Fingerprint: "incall:" + mode + ":no-sender-in-context", What: "GetNotificationSender found no sender in the handler's context", Input: in})
+		c.Violate(hk.Violation{Fingerprint: fpOf(mode, scen, "no-sender-in-context"), What: "GetNotificationSender found no sender in the handler's context", Input: in})
 	}
 	if len(sendErrs) > 0 {
-		c.Violate(hk.Violation{Fingerprint: "incall:" + mode + ":send-error", What: "the sender returned an error", Input: in, Observed: sendErrs[0]})
+		c.Violate(hk.Violation{Fingerprint: fpOf(mode, scen, "send-error"), What: "the sender returned an error", Input: in, Observed: sendErrs[0]})
 	}
 	if len(late) > 0 {
-		c.Violate(hk.Violation{Fingerprint: "incall:" + mode + ":delivered-after-return", What: "a notification reached its handler after the call had returned", Input: in, Observed: truncAny(late[0])})
+		c.Violate(hk.Violation{Fingerprint: fpOf(mode, scen, "delivered-after-return"), What: "a notification reached its handler after the call had returned", Input: in, Observed: truncAny(late[0])})
 	}
 	// ---- the notifications
 	var want []map[string]any
@@ -330,7 +359,7 @@ func judge(c *hk.Ctx, cfg hk.SrvCfg, profile []string, pl *plan, rc *rec, out ou
 	}
 	seen := out.seen
 	if !cfg.PostSSE && len(seen) > 0 {
-		c.Violate(hk.Violation{Fingerprint: "incall:json:notification-delivered", What: "JSON response mode delivered a notification", Input: in, Observed: truncAny(seen[0])})
+		c.Violate(hk.Violation{Fingerprint: fpOf("json", scen, "notification-delivered"), What: "JSON response mode delivered a notification", Input: in, Observed: truncAny(seen[0])})
 		return
 	}
 	seqs := func(vs []map[string]any) []int {
@@ -367,7 +396,7 @@ func judge(c *hk.Ctx, cfg hk.SrvCfg, profile []string, pl *plan, rc *rec, out ou
 		a, b := append([]int{}, ws...), append([]int{}, ss...)
 		sort.Ints(a)
 		sort.Ints(b)
-		c.Violate(hk.Violation{Fingerprint: "incall:sse:notification-" + kind, What: "the handlers did not see exactly the emitted notifications of their methods, once each, in emission order",
+		c.Violate(hk.Violation{Fingerprint: fpOf("sse", scen, "notification-"+kind), What: "the handlers did not see exactly the emitted notifications of their methods, once each, in emission order",
 			Input: in, Observed: trunc(canonS(ss), 400), Expected: trunc(canonS(ws), 400)})
 		return
 	}
@@ -378,12 +407,47 @@ func judge(c *hk.Ctx, cfg hk.SrvCfg, profile []string, pl *plan, rc *rec, out ou
 		}
 		for _, part := range []string{"method", "meta", "extra"} {
 			if canonS(w[part]) != canonS(s[part]) {
-				c.Violate(hk.Violation{Fingerprint: "incall:sse:notification-altered:" + part, What: "a notification reached its handler with a different " + part,
+				c.Violate(hk.Violation{Fingerprint: fpOf("sse", scen, "notification-altered:"+part), What: "a notification reached its handler with a different " + part,
 					Input: in, Observed: truncAny(s[part]), Expected: truncAny(w[part])})
 				return
 			}
 		}
 	}
+}
+
+// emitCall: one call as a model line (incall.call) with the observed trace; big calls are counted only (oracle-only).
+// extra: fields added to the op line that the model does not read (it has no notion of time).
+func emitCall(c *hk.Ctx, cfg hk.SrvCfg, profile []string, pl *plan, out outcome, extra map[string]any, tags []string) {
+	nontrivial := cfg.PostSSE && len(out.seen) > 0
+	if pl.Bytes > modelLimit {
+		c.Count("e2e-big:"+pl.Nonce, nontrivial, nil, append(tags, "oracle-only(big)")...)
+		return
+	}
+	trace := []any{}
+	for _, v := range out.seen {
+		trace = append(trace, map[string]any{"h": v})
+	}
+	switch {
+	case out.callErr != "" && strings.Contains(out.callErr, "no final response"):
+		trace = append(trace, map[string]any{"fail": "noResult"})
+	case out.callErr != "":
+		trace = append(trace, map[string]any{"fail": "decode", "error": trunc(out.callErr, 200)})
+	default:
+		trace = append(trace, map[string]any{"ret": out.ret})
+	}
+	op := map[string]any{"c": "incall.call", "sse": cfg.PostSSE, "handlers": profile, "reqId": out.reqID, "emits": pl.emitOps(), "answer": pl.answerOp()}
+	for k, v := range extra {
+		op[k] = v
+	}
+	c.Emit(op, map[string]any{"trace": trace}, nontrivial, tags...)
+}
+
+// answerOp: the handler's answer in the shape the Lean driver reads.
+func (pl *plan) answerOp() map[string]any {
+	if pl.Fail {
+		return map[string]any{"err": map[string]any{"code": -32603, "message": "tool execution failed (tool: " + toolName + "): " + pl.Text}}
+	}
+	return map[string]any{"ok": map[string]any{"content": []any{map[string]any{"type": "text", "text": pl.Text}}}}
 }
 
 func burstClass(n int) string {
@@ -485,31 +549,7 @@ func runEnv(c *hk.Ctx, cfg hk.SrvCfg, profileName string, profile, unregister []
 				tags = append(tags, "paused")
 			}
 		}
-		nontrivial := cfg.PostSSE && len(outs[i].seen) > 0
-		if pl.Bytes > modelLimit {
-			c.Count("e2e-big:"+pl.Nonce, nontrivial, nil, append(tags, "oracle-only(big)")...)
-			continue
-		}
-		trace := []any{}
-		for _, v := range outs[i].seen {
-			trace = append(trace, map[string]any{"h": v})
-		}
-		switch {
-		case outs[i].callErr != "" && strings.Contains(outs[i].callErr, "no final response"):
-			trace = append(trace, map[string]any{"fail": "noResult"})
-		case outs[i].callErr != "":
-			trace = append(trace, map[string]any{"fail": "decode", "error": trunc(outs[i].callErr, 200)})
-		default:
-			trace = append(trace, map[string]any{"ret": outs[i].ret})
-		}
-		var answer map[string]any
-		if pl.Fail {
-			answer = map[string]any{"err": map[string]any{"code": -32603, "message": "tool execution failed (tool: " + toolName + "): " + pl.Text}}
-		} else {
-			answer = map[string]any{"ok": map[string]any{"content": []any{map[string]any{"type": "text", "text": pl.Text}}}}
-		}
-		op := map[string]any{"c": "incall.call", "sse": cfg.PostSSE, "handlers": profile, "reqId": outs[i].reqID, "emits": pl.emitOps(), "answer": answer}
-		c.Emit(op, map[string]any{"trace": trace}, nontrivial, tags...)
+		emitCall(c, cfg, profile, pl, outs[i], nil, tags)
 	}
 	g.mu.Lock()
 	stray := g.stray
